@@ -44,7 +44,7 @@ def rule_id_universe():
     ids = set(registry_ids())
     prefixes = {i.split(".")[0] for i in ids}
     pat = re.compile(r"[\"']([a-z][a-z\-]+\.[a-z][a-z\-]+)[\"']")
-    for root, _d, files in os.walk("/repo/src/linters"):
+    for root, _d, files in os.walk(os.path.join(os.environ.get("VERIF_REPO", "/repo"), "src/linters")):
         for f in files:
             if f.endswith(".py"):
                 for m in pat.finditer(open(os.path.join(root, f), encoding="utf8").read()):
